@@ -740,6 +740,8 @@ orc_program_add_accumulator (OrcProgram *program, int size, const char *name)
 void
 orc_program_set_type_name (OrcProgram *program, int var, const char *type_name)
 {
+  /* may be called more than once for the same variable */
+  free (program->vars[var].type_name);
   program->vars[var].type_name = strdup(type_name);
 }
 
